@@ -135,14 +135,66 @@ func c01MapStaticProgram(rng *rand.Rand) string {
 	return sb.String()
 }
 
+// mapped PIPELINES and nested map calls over literals: a pipeline mapped over an array / typed-map
+// literal whose body has a stage that depends on the split value, one that does not, a nested map
+// call over a literal that mixes the split value with constants, and pass-through returns.
+func c01MapPipeProgram(rng *rand.Rand) string {
+	var sb strings.Builder
+	sb.WriteString(c01MapStaticDecls)
+	sb.WriteString("stage CONST(\n    in  int k,\n    out int c,\n    src comp \"fake\",\n)\n\n")
+	sb.WriteString("stage USE2(\n    in  int[]   ys,\n    in  int[][] zs,\n    in  PAIR[]  qs,\n    in  int[]   cs,\n    in  int[]   xs,\n    out int     r,\n    src comp    \"fake\",\n)\n\n")
+	sb.WriteString("stage USEM2(\n    in  map<int>   ys,\n    in  map<int[]> zs,\n    in  map<PAIR>  qs,\n    out int        r,\n    src comp       \"fake\",\n)\n\n")
+	nested := rng.Intn(3) != 0
+	sb.WriteString("pipeline INNER(\n    in  int   x,\n    in  PAIR  p,\n    in  int   k,\n    out int   y,\n    out int[] zs,\n    out PAIR  q,\n    out int   c,\n    out int   x2,\n)\n{\n")
+	sb.WriteString("    call WORK(\n        x = self.x,\n        p = self.p,\n        k = self.k,\n    )\n\n")
+	sb.WriteString("    call CONST(\n        k = self.k,\n    )\n\n")
+	if nested {
+		var es []string
+		for i, m := 0, 1+rng.Intn(3); i < m; i++ {
+			es = append(es, []string{"self.x", "WORK.y", fmt.Sprint(rng.Intn(30)), "self.k"}[rng.Intn(4)])
+		}
+		fmt.Fprintf(&sb, "    map call WORK as W2(\n        x = split [%s],\n        p = self.p,\n        k = WORK.y,\n    )\n\n", strings.Join(es, ", "))
+		sb.WriteString("    return (\n        y  = WORK.y,\n        zs = W2.y,\n        q  = WORK.q,\n        c  = CONST.c,\n        x2 = self.x,\n    )\n}\n\n")
+	} else {
+		sb.WriteString("    return (\n        y  = WORK.y,\n        zs = [WORK.y, self.x],\n        q  = WORK.q,\n        c  = CONST.c,\n        x2 = self.x,\n    )\n}\n\n")
+	}
+	sb.WriteString("pipeline TOP(\n    in  int    v,\n    out int[]  ys,\n    out int    r,\n    out int    r2,\n)\n{\n")
+	sb.WriteString("    call GEN(\n        n = self.v,\n    )\n\n")
+	n := 1 + rng.Intn(3)
+	var xs, ps, mx []string
+	for i := 0; i < n; i++ {
+		xs = append(xs, c01IntElem(rng, true))
+		ps = append(ps, c01PairElem(rng))
+		mx = append(mx, fmt.Sprintf(`"k%d": %s`, i, c01IntElem(rng, true)))
+	}
+	p := "GEN.w"
+	if rng.Intn(2) == 0 {
+		p = "split [" + strings.Join(ps, ", ") + "]"
+	}
+	fmt.Fprintf(&sb, "    map call INNER as M1(\n        x = split [%s],\n        p = %s,\n        k = %s,\n    )\n\n", strings.Join(xs, ", "), p, c01IntElem(rng, true))
+	sb.WriteString("    call USE2(\n        ys = M1.y,\n        zs = M1.zs,\n        qs = M1.q,\n        cs = M1.c,\n        xs = M1.x2,\n    )\n\n")
+	if rng.Intn(2) == 0 {
+		// the same pipeline in typed-map mode
+		fmt.Fprintf(&sb, "    map call INNER as M2(\n        x = split {%s},\n        p = GEN.w,\n        k = 3,\n    )\n\n", strings.Join(mx, ", "))
+		sb.WriteString("    call USEM2(\n        ys = M2.y,\n        zs = M2.zs,\n        qs = M2.q,\n    )\n\n")
+		fmt.Fprintf(&sb, "    return (\n        ys = M1.y,\n        r  = USE2.r,\n        r2 = USEM2.r,\n    )\n}\n\ncall TOP(\n    v = %d,\n)\n", rng.Intn(20))
+	} else {
+		fmt.Fprintf(&sb, "    return (\n        ys = M1.y,\n        r  = USE2.r,\n        r2 = USE2.r,\n    )\n}\n\ncall TOP(\n    v = %d,\n)\n", rng.Intn(20))
+	}
+	return sb.String()
+}
+
 func c01MapStaticFamily(rng *rand.Rand, thorough bool) []c01Case {
-	n := 14
+	n, m := 10, 8
 	if thorough {
-		n = 150
+		n, m = 50, 40
 	}
 	var cases []c01Case
 	for i := 0; i < n; i++ {
 		cases = append(cases, c01Case{name: fmt.Sprintf("family/map-static-%d", i), src: c01MapStaticProgram(rng)})
+	}
+	for i := 0; i < m; i++ {
+		cases = append(cases, c01Case{name: fmt.Sprintf("family/map-pipe-%d", i), src: c01MapPipeProgram(rng)})
 	}
 	return cases
 }
